@@ -187,8 +187,10 @@ impl RADAU {
         // Adjust tolerances
         let expm = 2.0 / 3.0;
         let n = y.len();
-        let mut rtol = rtol;
-        let mut atol = atol;
+        // Work on per-component copies: a scalar tolerance is a single cell, and transforming
+        // it in this loop would re-apply the transformation once per component.
+        let mut rtol = Tolerance::Vector((0..n).map(|i| rtol[i]).collect());
+        let mut atol = Tolerance::Vector((0..n).map(|i| atol[i]).collect());
         for i in 0..n {
             let quot = atol[i] / rtol[i];
             rtol[i] = 0.1 * rtol[i].powf(expm);
